@@ -30,6 +30,15 @@ RULE = ("case = (method, id or none, params shape, representation). Non-trivial:
 ASSUMPTIONS = ["custom register_method handlers obey the (response, session_id) return contract or raise"]
 
 
+class BadStr(Exception):
+    """An exception that cannot be turned into text."""
+
+    def __str__(self):
+        raise RuntimeError("str() of this exception fails")
+
+    __repr__ = __str__
+
+
 def build_neighbour(tag: str):
     """Another server object living in the same process, registering the same names with other behaviour
     and a few names of its own: the server under test must never be influenced by it."""
@@ -95,7 +104,7 @@ def build_server():
                       ("raise_runtime", RuntimeError("boom")), ("raise_type", TypeError("t")),
                       ("raise_timeout", asyncio.TimeoutError()), ("raise_custom", type("Custom", (Exception,), {})("c")),
                       ("raise_unicode", ValueError("\u2028 sep \U0001f600")), ("raise_noargs", NotImplementedError()),
-                      ("raise_assert", AssertionError()), ("raise_lookup", LookupError())):
+                      ("raise_assert", AssertionError()), ("raise_lookup", LookupError()), ("raise_badstr", BadStr())):
         srv.register_tool(name, mk_raiser(exc), {"type": "object"})
 
     async def res_ok():
@@ -131,7 +140,7 @@ def build_server():
                       ("custom/raise_assert", AssertionError()), ("custom/raise_intarg", ValueError(7)),
                       ("custom/raise_twoargs", OSError(2, "No such file")), ("custom/raise_keyerror", KeyError("k")),
                       ("custom/raise_unicode", RuntimeError("\u2028\n\U0001f600")), ("custom/raise_stopasync", StopAsyncIteration()),
-                      ("custom/raise_lookup", LookupError())):
+                      ("custom/raise_lookup", LookupError()), ("custom/raise_badstr", BadStr())):
         ph.register_method(name, mk_custom_raiser(exc))
     # handlers that have nothing (or something falsy) to return, through the handler's own response builder
     def mk_result(val):
@@ -153,9 +162,9 @@ CUSTOM_RESULTS = {"custom/result_none": None, "custom/result_empty": {}, "custom
                   "custom/result_false": False, "custom/result_str": "", "custom/result_nested_null": {"a": None, "b": [None]}}
 CUSTOM_RAISERS = ["custom/raise_noargs", "custom/raise_timeout", "custom/raise_assert", "custom/raise_intarg",
                   "custom/raise_twoargs", "custom/raise_keyerror", "custom/raise_unicode", "custom/raise_stopasync",
-                  "custom/raise_lookup"]
+                  "custom/raise_lookup", "custom/raise_badstr"]
 RAISING_TOOLS = {"raise_value", "raise_key", "raise_runtime", "raise_type", "raise_timeout", "raise_custom",
-                 "raise_unicode", "sync", "raise_noargs", "raise_assert", "raise_lookup"}
+                 "raise_unicode", "sync", "raise_noargs", "raise_assert", "raise_lookup", "raise_badstr"}
 GOOD_TOOLS = {"echo", "dict", "list", "none", "bytes", "obj", "caf\u00e9"}
 
 IDS = [0, -1, 1, 2**53, 2**63, "", "x", "123", "007", "id with space", "ü\U0001f600"]
